@@ -13,6 +13,7 @@ CONSTANTS
   ClassSet = {"bnd", "name", "idfull", "data", "datafull"}
   AnswerSet = {"terr", "ok"}
   TailSet = {"good"}
+  RetrySet = {"none"}
   FixScanner = FALSE
   FixCursor = TRUE
   Fix5xx = TRUE
